@@ -221,7 +221,7 @@ def _rp_avg(assemblage, custom):
 
 
 def bounded(run):
-    cnt = 96 if run.tier == "quick" else 1200
+    cnt = 96 if run.tier == "quick" else 1200 * run.tmul
     jobs = [dict(seed=run.seed * 17 + k, count=cnt // 8) for k in range(8)]
     res, errs = native.pmap("contracts.C10", "nat_sweep", jobs)
     run.worker_errors(errs, len(jobs))
